@@ -206,7 +206,7 @@ def check_c08(pid, tier, seed, res, work):
         # reference: F alone
         base = '%s/b%d' % (work, i)
         qrun.write_project(base, [F])
-        ctx_kind = ['copies', 'fragments', 'malformed', 'unreadable_file', 'unreadable_dir', 'dangling_symlink', 'decoys', 'callers'][i % 8]
+        ctx_kind = ['copies', 'fragments', 'malformed', 'unreadable_file', 'unreadable_dir', 'dangling_symlink', 'decoys', 'callers', 'dir_symlinks', 'file_symlinks'][i % 10]
         ctx = []
         if ctx_kind == 'copies':
             ctx = [('src/Copy.java', F[1]), ('other/Target%d.java' % i, F[1])]
@@ -241,6 +241,23 @@ def check_c08(pid, tier, seed, res, work):
         elif ctx_kind == 'dangling_symlink':
             os.symlink('/nonexistent/target.java', var + '/src/Dangling.java')
             os.symlink('/nonexistent/dir', var + '/src/zz/d')
+        elif ctx_kind == 'dir_symlinks':
+            # links to directories of the project itself (sorting before and after their target, relative and
+            # absolute, one cycle), to the project root, and to a directory outside the project
+            os.symlink('src', var + '/0-link-before')
+            os.symlink('src', var + '/zz-link-after')
+            os.symlink('../src', var + '/aa/vendored')
+            os.symlink(var + '/src/zz', var + '/aa/abs-link')
+            os.symlink('..', var + '/src/zz/up')
+            os.symlink(var, var + '/aa/root-link')
+            outside = '%s/outside%d' % (work, i)
+            qrun.write_project(outside, [('Out.java', b'class Out { int o = 1 + 2; }')])
+            os.symlink(outside, var + '/aa/outside')
+            os.symlink('src', var + '/dirlink.java')
+        elif ctx_kind == 'file_symlinks':
+            os.symlink('Target%d.java' % i, var + '/src/Alias.java')
+            os.symlink(var + '/' + F[0], var + '/aa/AbsAlias.java')
+            os.symlink('../aa/First.java', var + '/src/0First.java')
         for d in (base, var):
             for root, dirs, fs in os.walk(d):
                 try:
